@@ -91,6 +91,12 @@ FIXED = [
 UP = 'DEADBEEF00112233AABBCCDD'
 
 REGRESSION = [
+    # what mongo.py hands to the engine: id -> _id with mapped operands, operators, projection incl. _id, sort spec, documents
+    {'kind': 'xlate', 'ops': [
+        qry('c0', fields=['n', 'id'], filt={'id': {'in': ['a', '0123456789abcdef01234567', UP]}, 'n': {'ge': 1, 'lt': 9}}, sort=[['n', True], ['s', False]], limit=3),
+        qry('c0', fields=['n'], filt={'s': 'x"y', 'id': '0123456789abcdef01234567'}), qry('c0', filt={'n': {'in': [1, 2]}, 'l': [1, 2]}),
+        ins('c0', {'id': '0123456789abcdef01234567', 'n': 1}), ins('c0', {'n': 2}, 1), upd('c0', {'n': 3, 's': 'z'}, {'id': 'a', 'n': {'gt': 0}}),
+        rep('c0', UP.lower(), {'n': 4}), rem('c0', {'id': {'in': [UP.lower()]}}), qry('c0', filt={'n': {'xx': 1}}), qry('c0', fields=[])]},
     # explicit ids that look like ObjectIds, in both cases: two different records, each addressed by its own spelling
     {'ops': [ins('c0', {'id': UP, 'n': 1}), qry('c0', filt={'id': UP}), ins('c0', {'id': UP.lower(), 'n': 2}),
              qry('c0', sort=[['n', False]]), rem('c0', {'id': UP.lower()}), qry('c0'), upd('c0', {'n': 5}, {'id': {'in': [UP.lower(), UP]}}),
